@@ -76,7 +76,7 @@ def generate(rng, tier):
         names = ["x.conf", "sub/y.conf", cdir + "/d2/x.conf", cdir + "/d1", cdir + "/dmiss/x.conf", "missing.conf", "", "./d1/x.conf"]
         for nm in names:
             lines.append("SQ 0 " + hx(nm))
-        for t in ["~", "~/x", "~/", "~root", "~root/x/y", "~nouser/x", "~nouser", "plain", "", "a~b", "~~"] + ["~%s/f" % u for u in USERS]:
+        for t in ["~", "~/x", "~/", "~root", "~root/x/y", "~roo/x", "~r", "~ro", "~rootx/y", "~root/z", "~nouser/x", "~nouser", "plain", "", "a~b", "~~"] + ["~%s/f" % u for u in USERS]:
             lines.append("TE " + hx(t))
         lines += ["PF 0 " + hx("x.conf"), "D 0", "PF 0 " + hx(cdir + "/main.conf" if seq else "main.conf"), "D 0",
                   "PB 0 " + hx("include(\"x.conf\")\n"), "D 0",
